@@ -54,6 +54,7 @@ THEOREMS = [
     'C14.faultWith_maskOf', 'C14.sfNew_coherent', 'C14.sfStep_coherent', 'C14.sfRun_coherent', 'C14.surfaceBase_error',
     'C14.faultCore_eq', 'C14.fault_after_history', 'C14.fault_history_clauses', 'C14.surfaceSF_forgets',
     'C14.sfRun_history_independent', 'C14.history_eq_fresh', 'C14.surfaceSF_default_plane', 'C14.vacuum_same_crystal',
+    'C14.sizesOf_mult', 'C14.sfNew_built', 'C14.sfStep_built', 'C14.sfRun_built', 'C14.stored_system_same_crystal',
     # vacuum and relative coordinates (tilted cut vector)
     'C14.cartToRel_z_of_flat', 'C14.vacuum_rel_cut_c', 'C14.vacuum_rel_cut_bounds', 'C14.vacuum_inplane_c',
 ]
